@@ -53,8 +53,10 @@ template<bool iomode> void GridLocalPolynomial::write(std::ostream &os) const{
         IO::writeFlag<iomode, IO::pad_auto>((surpluses.getNumStrips() != 0), os);
         if (!surpluses.empty()) surpluses.writeVector<iomode, IO::pad_line>(os);
     }
-    IO::writeFlag<iomode, IO::pad_auto>((parents.getNumStrips() != 0), os);
-    if (!parents.empty()) parents.writeVector<iomode, IO::pad_line>(os);
+    // the cached parents are read back as one strip per point, a cache that is out of date (points added by construction) is not saved
+    bool save_parents = (parents.getNumStrips() != 0) && (parents.getNumStrips() == points.getNumIndexes());
+    IO::writeFlag<iomode, IO::pad_auto>(save_parents, os);
+    if (save_parents) parents.writeVector<iomode, IO::pad_line>(os);
 
     IO::writeNumbers<iomode, IO::pad_rspace>(os, static_cast<int>(roots.size()));
     if (roots.size() > 0){ // the tree is empty, can happend when using dynamic construction
